@@ -183,15 +183,19 @@ fn only_regs(tr: &[RegAccess], allowed: &[u64], out: &mut Vec<(String, String)>,
         }
     }
 }
-/// Queue select must be written, with the right value, before any per-queue register access.
-fn select_first(tr: &[RegAccess], q: u16, out: &mut Vec<(String, String)>, op: &Op) {
+/// The device's queue selector must hold the right queue at every per-queue register access. It
+/// is what the device holds that counts (`sel0` is its value when the operation starts; a reset
+/// puts it back to 0), so an implementation that remembers a still valid selection is fine.
+fn select_first(tr: &[RegAccess], q: u16, sel0: u32, out: &mut Vec<(String, String)>, op: &Op) {
     let per_queue = [0x034u64, 0x038, 0x03c, 0x040, 0x044, 0x080, 0x084, 0x090, 0x094, 0x0a0, 0x0a4];
-    let mut selected: Option<u64> = None;
+    let mut selected: Option<u64> = Some(sel0 as u64);
     for a in tr {
         if a.write && a.off == 0x030 {
             selected = Some(a.value);
+        } else if a.write && a.off == 0x070 && a.value == 0 {
+            selected = Some(0);
         } else if per_queue.contains(&a.off) && selected != Some(q as u64) {
-            out.push(("queue-not-selected".into(), format!("{:?}: per-queue register {:#x} accessed while QueueSel was {:?} within this operation", op, a.off, selected)));
+            out.push(("queue-not-selected".into(), format!("{:?}: per-queue register {:#x} accessed while the device's QueueSel was {:?}", op, a.off, selected)));
             return;
         }
     }
@@ -251,7 +255,7 @@ pub fn check_op(env: &Env, w: &World, op: &Op, ret: &Ret, tr: &[RegAccess], pre:
         }
         Op::MaxQueueSize(q) => {
             only_regs(tr, &[0x030, 0x034], out, op);
-            select_first(tr, *q, out, op);
+            select_first(tr, *q, pre.queue_sel, out, op);
             let want = env.max_sizes.get(*q as usize).copied().unwrap_or(0) as u64;
             if *ret != Ret::U64(want) {
                 out.push(("max-queue-size".into(), format!("max_queue_size({}) = {:?}, device says {}", q, ret, want)));
@@ -285,7 +289,7 @@ pub fn check_op(env: &Env, w: &World, op: &Op, ret: &Ret, tr: &[RegAccess], pre:
             }
         }
         Op::QueueSet { q, size, desc, driver, device } => {
-            select_first(tr, *q, out, op);
+            select_first(tr, *q, pre.queue_sel, out, op);
             let ws = writes(tr);
             if tr.iter().any(|a| !a.write) {
                 out.push(("queue-set-reads".into(), "queue_set read registers".into()));
@@ -340,7 +344,7 @@ pub fn check_op(env: &Env, w: &World, op: &Op, ret: &Ret, tr: &[RegAccess], pre:
             }
         }
         Op::QueueUnset(q) => {
-            select_first(tr, *q, out, op);
+            select_first(tr, *q, pre.queue_sel, out, op);
             let ws = writes(tr);
             if legacy {
                 only_regs(tr, &[0x030, 0x038, 0x03c, 0x040], out, op);
@@ -377,7 +381,7 @@ pub fn check_op(env: &Env, w: &World, op: &Op, ret: &Ret, tr: &[RegAccess], pre:
         }
         Op::QueueUsed(q) => {
             only_regs(tr, &[0x030, if legacy { 0x040 } else { 0x044 }], out, op);
-            select_first(tr, *q, out, op);
+            select_first(tr, *q, pre.queue_sel, out, op);
             let want = (*q as usize) < 3 && (pre.enabled[*q as usize] || env.in_use[*q as usize]);
             if *ret != Ret::Bool(want) {
                 out.push(("queue-used-value".into(), format!("queue_used({}) = {:?}, expected {}", q, ret, want)));
@@ -414,6 +418,8 @@ pub fn check_op(env: &Env, w: &World, op: &Op, ret: &Ret, tr: &[RegAccess], pre:
 
 #[derive(Clone, Debug, Default)]
 pub struct Pre {
+    /// The device's queue selector when the operation starts.
+    pub queue_sel: u32,
     pub status: u32,
     pub isr: u32,
     pub enabled: [bool; 3],
@@ -421,7 +427,15 @@ pub struct Pre {
 
 fn pre_of(w: &World) -> Pre {
     let d = w.dev.borrow();
-    Pre { status: d.status, isr: d.isr, enabled: [d.queues[0].enabled, d.queues[1].enabled, d.queues[2].enabled] }
+    let mut queue_sel = 0;
+    mmio::with_handler(|h| {
+        if let Some(rw) = h.as_any().downcast_mut::<crate::regdev::RegWorld>() {
+            if let Some(m) = rw.mmio.as_ref() {
+                queue_sel = m.queue_sel;
+            }
+        }
+    });
+    Pre { queue_sel, status: d.status, isr: d.isr, enabled: [d.queues[0].enabled, d.queues[1].enabled, d.queues[2].enabled] }
 }
 
 /// Runs a sequence of operations on a fresh transport; returns violations and a signature of the
